@@ -851,14 +851,22 @@ class Fn:
         return deps
 
     def _assigned_locals(self, bb):
-        out = set()
+        """(whole locals assigned, canonical strings of projected places stored to) in bb"""
+        whole = set()
+        parts = set()
         for st in self.blocks[bb]["stmts"]:
             if st["k"] in ("assign", "setdiscr"):
-                out.add(st["place"]["local"])
+                if st["place"]["proj"]:
+                    parts.add(self.cplace(st["place"]))
+                else:
+                    whole.add(st["place"]["local"])
         t = self.term(bb)
         if t["k"] == "call":
-            out.add(t["dest"]["local"])
-        return out
+            if t["dest"]["proj"]:
+                parts.add(self.cplace(t["dest"]))
+            else:
+                whole.add(t["dest"]["local"])
+        return whole, parts
 
     def path_conds(self):
         """must-hold conditions at entry of each block: {bb: frozenset(conds)}"""
@@ -867,8 +875,11 @@ class Fn:
         order = self.rpo()
         econds = {b: self.edge_conds(b) for b in order}
         assigned = {b: self._assigned_locals(b) for b in order}
-        # multi-def locals only matter for kill; single-def temps never get killed wrongly
-        multi = {l for l, ds in self.defs().items() if len(ds) > 1}
+        # multi-def locals only matter for kill; single-def temps never get killed wrongly.
+        # stores through a projection (`(*_1).state = ..`) kill only the facts that mention
+        # that place
+        multi = {l for l, ds in self.defs().items()
+                 if len([d for d in ds if d[0] != "partial"]) > 1}
         IN = {b: None for b in order}
         IN[0] = frozenset()
         changed = True
@@ -879,12 +890,15 @@ class Fn:
             for b in order:
                 if IN[b] is None:
                     continue
-                kill = assigned[b] & multi
+                whole, parts = assigned[b]
+                kill = whole & multi
+                base = IN[b]
                 if kill:
-                    base = frozenset(c for c in IN[b]
+                    base = frozenset(c for c in base
                                      if not (self._cond_deps.get(c, frozenset()) & kill))
-                else:
-                    base = IN[b]
+                if parts:
+                    base = frozenset(c for c in base
+                                     if not any(pp in str(c[1]) for pp in parts))
                 for s in self.succ(b):
                     new = base | frozenset(econds[b].get(s, ()))
                     if IN.get(s) is None:
